@@ -215,6 +215,8 @@ TimerSteps(t) ==
               {H([t EXCEPT !.ticks = @ + 1, !.lpc = "connect"], [a |-> "tick", what |-> "reconnect"])}
          [] t.lpc = "backoff" ->             \* time.After(autoReconnectInterval) after a second failure in a row
               {H([t EXCEPT !.ticks = @ + 1, !.recent = FALSE, !.lpc = "connect"], [a |-> "tick", what |-> "backoff"])}
+         [] t.lpc = "rescanwait" ->          \* time.After(rescanWaitDuration) before the third scan in a row
+              {H([t EXCEPT !.ticks = @ + 1, !.lpc = "top"], [a |-> "tick", what |-> "rescan"])}
          [] OTHER -> {}
 
 LoopSteps(t) ==
@@ -237,11 +239,15 @@ LoopSteps(t) ==
              okStep == LET u == Ret("ok") IN
                        IF t.cancelled THEN SyncReturn(u, FALSE)
                        ELSE Reconciled([u EXCEPT !.sa = t.da, !.sb = t.db, !.retries = 0])
+             \* try again: LastError is set; the first time the scan is repeated at once (polling skipped), a second
+             \* time in a row the loop first waits rescanWaitDuration in Status WaitingForRescan
              againStep == LET u == Fault(Ret("again")) IN
                           IF t.cancelled THEN SyncReturn(u, FALSE)
-                          ELSE [StScanRetry(u) EXCEPT !.retries = 1, !.skipPoll = TRUE, !.lpc = "top"]
+                          ELSE IF t.retries = 0
+                          THEN [StScanRetry(u) EXCEPT !.retries = 1, !.skipPoll = TRUE, !.lpc = "top"]
+                          ELSE [St(StScanRetry(u), "waiting-for-rescan") EXCEPT !.skipPoll = TRUE, !.lpc = "rescanwait"]
              errStep == SyncReturn(Fault(Ret("err")), FALSE)
-         IN {okStep} \cup (IF Budget(t) /\ t.retries = 0 THEN {againStep} ELSE {})
+         IN {okStep} \cup (IF Budget(t) /\ (t.retries = 0 \/ t.ticks < MaxTicks) THEN {againStep} ELSE {})
                      \cup (IF Budget(t) THEN {errStep} ELSE {})
     [] t.lpc \in {"stagingA", "stagingB"} ->
          LET x == IF t.lpc = "stagingA" THEN "alpha" ELSE "beta"
@@ -250,6 +256,8 @@ LoopSteps(t) ==
             \cup (IF Budget(t) THEN {SyncReturn(Fault(Ret("err")), FALSE)} ELSE {})
     [] t.lpc = "transitioning" ->  \* the two transitions run in parallel and return in either order
          UNION {TransReturn(t, x) : x \in t.pendT}
+    [] t.lpc = "rescanwait" ->     \* "cancelled during rescan wait" | the timer
+         (IF t.cancelled THEN {SyncReturn(t, FALSE)} ELSE {}) \cup TimerSteps(t)
     [] t.lpc \in {"haltwait", "backoff", "reconnwait"} ->     \* <-ctx.Done() | the timer
          (IF t.cancelled THEN {Exit(t)} ELSE {}) \cup TimerSteps(t)
     [] OTHER -> {}
@@ -382,6 +390,9 @@ InvC11 == C11_NoOpsWhileHalted(s.m) /\ C11_Status(s.m, ObsState(s)) /\ C11_Roots
 \* endpoint operation the three are what the observer expects from the journal alone (the conformance relation
 \* the trace module counts on real sessions)
 InvStatusMachine == ~s.stbad /\ StatusAgrees(s.m, ObsState(s))
+\* scan retry and missing-files re-cycle, as the observer sees them in the journal: a try-again scan and a cycle
+\* whose transition missed staged files are followed by the next scan without polling in between (once)
+InvRecycle == s.m.rcdrift = 0
 \* the model's own view of C11: whenever transitions are in flight the plan propagates none of the three
 InvNeverPropagated ==
   s.lpc \in {"stagingA", "stagingB", "transitioning"} =>
